@@ -485,13 +485,13 @@ def Op.methodName : Op → String
   | .error .. => "error"
   | _ => ""
 
-def Target.admits : Target → Op → Bool
+def Target.accepts : Target → Op → Bool
   | .app _, _ => true
   | .alias h n, op => aliasMethod h n == some op.methodName
 
 /-- one call somewhere in the process; `none`: no such application / no such alias -/
 def World.step (ctx : Ctx) (w : World) (t : Target) (op : Op) : Option (World × Out) :=
-  if !t.admits op then none else
+  if !t.accepts op then none else
   match t.index with
   | none => none
   | some i =>
